@@ -17,6 +17,9 @@ CLAIMED = {
  "C03": dict(
    text="Proof: in every reachable state the table lies between header and data, live regions lie in the declared data section and in the file and are pairwise disjoint (invariant, by induction over operations); a new object goes to the aligned offset at/after all data and leaves every earlier byte alone; delete keeps survivors' bytes, compaction ends the file exactly at the data end, zeroing leaves zeros in exactly the deleted regions; no operation disturbs a bystander's descriptor or bytes; nextAligned is correct for every non-negative offset and every alignment, with the overflow error exactly when the result exceeds MaxInt64." + CORR,
    note=NOTE, ref="5 (C03)"),
+ "C14": dict(
+   text="Proof: sif.Buffer is transliterated line by line from buffer.go and proved bisimilar to a POSIX file model on every call inside its documented contract (any seek, non-empty write at any position incl. past the end, empty write inside the data, non-empty positioned read, shrinking truncate); every storage call the library issues on an image with >=1 descriptor slot is proved to be inside that contract (no empty write, no upward truncate); hence every operation history gives equal results and byte-identical contents on both backends (induction over histories). Capacity 0 is refuted by a computed witness (known finding F4b). The file model is validated against a real os.File, and the transliteration against the real sif.Buffer, on random call sequences (also outside the contract), and histories are run in lock-step on both backends.",
+   note=NOTE + " The POSIX file model (Backends.file_step) is validated against this sandbox's kernel/filesystem only.", ref="5 (C14)"),
  "C08": dict(
    text="Proof: in every reachable state (any creation or well-formed foreign image, any history incl. rejected operations) LoadContainer on the file's current bytes returns exactly the open handle - header, descriptors and cached minimum IDs (canonical form) - so every function of handle and storage is answered identically; reload is the identity step." + CORR,
    note=NOTE, ref="5 (C08)"),
